@@ -216,8 +216,12 @@ fn add_reference_items(
     }
     if with_tokens {
         for token in file.token_decls(cst) {
+            // a half-typed token list (`token ;`, `token = 'x'`) holds declarations without a name
+            let Some((name, _)) = token.name(cst) else {
+                continue;
+            };
             items.push(CompletionItem {
-                label: token.name(cst).unwrap().0.to_string(),
+                label: name.to_string(),
                 label_details: Some(CompletionItemLabelDetails {
                     description: Some("Token".to_string()),
                     ..Default::default()
